@@ -28,8 +28,10 @@ def run_case(case):
     tdt = dwtu.tdt(case['dtype'])
     c03.common_labels(r, case)
     with dwtu.default_dtype(tdt):
-        fwd = DTCWTForward(biort=b, qshift=q, J=J)
-        inv = DTCWTInverse(biort=b, qshift=q)
+        fb, fq = dtu.filt_args(b, q, case.get('filt_form', 'names'))
+        ib, iq = dtu.filt_args(b, q, case.get('filt_form', 'names'), inverse=True)
+        fwd = DTCWTForward(biort=fb, qshift=fq, J=J)
+        inv = DTCWTInverse(biort=ib, qshift=iq)
     inputs = []
     if H * W <= 192:
         r.label('full_operator')
